@@ -285,3 +285,228 @@ Section Readers.
     destruct r4; discriminate.
   Qed.
 End Readers.
+
+(* ================= truncation ================= *)
+Lemma split_at_short k (l : bytes) : (length l < k)%nat -> split_at k l = None.
+Proof. intros H. unfold split_at. destruct (k <=? length l)%nat eqn:E; [apply Nat.leb_le in E; lia|reflexivity]. Qed.
+
+(* a proper prefix of a head is not a head *)
+Lemma decode_head_truncated m n j : m < 8 -> (j < length (encode_head m n))%nat ->
+  decode_head (firstn j (encode_head m n)) = None.
+Proof.
+  intros Hm Hj. destruct j as [|j]; [reflexivity|].
+  unfold encode_head in *.
+  destruct (n <? 24) eqn:E1; [cbn [length] in Hj; lia|].
+  assert (G : forall c k, (c = 24 /\ k = 1%nat) \/ (c = 25 /\ k = 2%nat) \/ (c = 26 /\ k = 4%nat) \/ (c = 27 /\ k = 8%nat) ->
+            (j < k)%nat -> decode_head (firstn (S j) ((m * 32 + c) :: be k n)) = None).
+  { intros c k Hck Hk. cbn [firstn decode_head].
+    assert (Hl : (length (firstn j (be k n)) < k)%nat) by (rewrite firstn_length, be_length; lia).
+    destruct Hck as [[-> ->]|[[-> ->]|[[-> ->]| [-> ->]]]];
+      match goal with |- context [(m * 32 + ?c) mod 32] => destruct (initial_byte m c ltac:(lia)) as [_ ->] end;
+      repeat match goal with
+        | |- context [?a <? ?b] => let v := eval vm_compute in (a <? b) in
+            match v with true => change (a <? b) with true | false => change (a <? b) with false end
+        | |- context [?a =? ?b] => let v := eval vm_compute in (a =? b) in
+            match v with true => change (a =? b) with true | false => change (a =? b) with false end
+        end; cbv beta iota zeta; now rewrite split_at_short by exact Hl. }
+  destruct (n <? 256); [apply G; [tauto|]; cbn [length] in Hj; rewrite ?be_length in Hj; lia|].
+  destruct (n <? 65536); [apply G; [tauto|]; cbn [length] in Hj; rewrite ?be_length in Hj; lia|].
+  destruct (n <? 4294967296); (apply G; [tauto|]; cbn [length] in Hj; rewrite ?be_length in Hj; lia).
+Qed.
+
+Section Truncation.
+  Variable crc : bytes -> N.
+  Hypothesis crc_range : forall bs, crc bs < two64.
+
+  Lemma rd_len_truncated major n j : major < 8 -> (j < length (encode_head major n))%nat ->
+    rd_len major (firstn j (encode_head major n)) = Err.
+  Proof. intros Hm Hj. unfold rd_len. now rewrite decode_head_truncated. Qed.
+  Lemma rd_arg_truncated major n j : major < 8 -> (j < length (encode_head major n))%nat ->
+    rd_arg major (firstn j (encode_head major n)) = Err.
+  Proof. intros Hm Hj. unfold rd_arg. now rewrite decode_head_truncated. Qed.
+
+  Lemma rd_bytes_truncated b rest j : N.of_nat (length b) < two63 -> (j < length (enc_bytes b))%nat ->
+    rd_bytes (firstn j (enc_bytes b ++ rest)) = Err.
+  Proof.
+    intros Hb Hj. unfold enc_bytes in *. rewrite <- app_assoc, firstn_app.
+    set (H := encode_head 2 (N.of_nat (length b))) in *.
+    destruct (Nat.lt_ge_cases j (length H)) as [Hlt|Hge].
+    - replace (j - length H)%nat with 0%nat by lia. cbn [firstn]. rewrite app_nil_r.
+      unfold rd_bytes, H. rewrite decode_head_truncated by (fold H; lia). reflexivity.
+    - rewrite firstn_all2 by lia. rewrite app_length in Hj.
+      unfold rd_bytes, H. rewrite decode_encode_head by (unfold two63, two64 in *; lia).
+      change (2 =? 2) with true. cbv iota. fold H.
+      assert (Hl : (length (firstn (j - length H) (b ++ rest)) < length b)%nat).
+      { rewrite firstn_length. lia. }
+      destruct (N.of_nat (length (firstn (j - length H) (b ++ rest))) <? N.of_nat (length b)) eqn:E; [|lia].
+      destruct (two63 <=? N.of_nat (length b)) eqn:E2; [lia|reflexivity].
+  Qed.
+
+  (* every proper prefix of a written Byron address is refused (an error, not a panic) *)
+  Theorem byron_rejects_truncation a k : wf_byron a -> (k < length (byron_encode crc a))%nat ->
+    byron_from_bytes crc (firstn k (byron_encode crc a)) = Err.
+  Proof.
+    intros Hwf Hk. unfold byron_from_bytes, byron_decode_prefix.
+    pose proof (byron_inner_length crc a Hwf) as Hlen.
+    unfold byron_encode in *. set (inner := byron_inner a) in *.
+    change (encode_head 4 2) with [130] in *. change (encode_head 6 24) with [216; 24] in *.
+    destruct k as [|k]; [reflexivity|].
+    cbn [app firstn]. change (130 :: ?x) with (encode_head 4 2 ++ x).
+    rewrite rd_len_enc by (unfold two64; lia). cbn [bind].
+    cbn [app length] in Hk.
+    destruct k as [|[|k]].
+    - reflexivity.
+    - reflexivity.
+    - cbn [firstn]. change (216 :: 24 :: ?x) with (encode_head 6 24 ++ x).
+      rewrite rd_arg_enc by (unfold two64; lia). cbn [bind]. change (24 =? 24) with true. cbv iota.
+      rewrite app_length in Hk.
+      destruct (Nat.lt_ge_cases k (length (enc_bytes inner))) as [Hlt|Hge].
+      + rewrite rd_bytes_truncated by assumption. reflexivity.
+      + rewrite firstn_app, firstn_all2 by lia.
+        rewrite (rd_bytes_enc crc) by (unfold two63, two64 in *; lia). cbn [bind].
+        unfold enc_uint. rewrite rd_arg_truncated by (lia || (unfold enc_uint in Hk; lia)). reflexivity.
+  Qed.
+End Truncation.
+
+(* ================= what the parser returns is well-formed ================= *)
+Lemma bytes_ok_firstn k (l : bytes) : bytes_ok l -> bytes_ok (firstn k l).
+Proof.
+  unfold bytes_ok. revert l; induction k as [|k IH]; intros l H; [constructor|].
+  destruct l as [|x t]; [constructor|]. inversion H; subst. cbn. constructor; auto.
+Qed.
+Lemma bytes_ok_skipn' k (l : bytes) : bytes_ok l -> bytes_ok (skipn k l).
+Proof.
+  unfold bytes_ok. revert l; induction k as [|k IH]; intros l H; [exact H|].
+  destruct l as [|x t]; [constructor|]. inversion H; subst. cbn. auto.
+Qed.
+
+Lemma Forall_app_intro {A} (P : A -> Prop) l1 l2 : Forall P l1 -> Forall P l2 -> Forall P (l1 ++ l2).
+Proof. intros. apply Forall_app. split; assumption. Qed.
+
+Lemma decode_head_rest_ok bs m a r : bytes_ok bs -> decode_head bs = Some (m, a, r) -> bytes_ok r.
+Proof.
+  intros Hok H. destruct (decode_head_suffix _ _ _ _ H) as (pre & -> & _).
+  unfold bytes_ok in *. apply Forall_app in Hok. tauto.
+Qed.
+
+Section Parsed.
+  Variable crc : bytes -> N.
+
+  Lemma rd_arg_ok major bs n r : bytes_ok bs -> rd_arg major bs = Ok (n, r) -> bytes_ok r /\ (length r < length bs)%nat.
+  Proof.
+    intros Hok H. split; [|eapply rd_arg_shorter; exact H]. unfold rd_arg in H.
+    destruct (decode_head bs) as [[[m [k|]] r']|] eqn:E; try discriminate.
+    destruct (m =? major); [|discriminate]. injection H as _ <-. eapply decode_head_rest_ok; eassumption.
+  Qed.
+  Lemma rd_len_ok major bs a r : bytes_ok bs -> rd_len major bs = Ok (a, r) -> bytes_ok r /\ (length r < length bs)%nat.
+  Proof.
+    intros Hok H. split; [|eapply rd_len_shorter; exact H]. unfold rd_len in H.
+    destruct (decode_head bs) as [[[m k] r']|] eqn:E; try discriminate.
+    destruct (m =? major); [|discriminate]. injection H as _ <-. eapply decode_head_rest_ok; eassumption.
+  Qed.
+
+  Lemma rd_chunks_ok fuel : forall bs acc v r, bytes_ok bs -> bytes_ok acc ->
+    rd_chunks fuel bs acc = Ok (v, r) ->
+    bytes_ok v /\ bytes_ok r /\ (length v + length r <= length acc + length bs)%nat.
+  Proof.
+    induction fuel as [|f IH]; intros bs acc v r Hbs Hacc H; [discriminate|]. cbn [rd_chunks] in H.
+    destruct bs as [|b t]; [discriminate|].
+    destruct (b / 32 =? 7).
+    { destruct (b mod 32 =? 31); [|discriminate]. injection H as <- <-.
+      inversion Hbs; subst. cbn [length]. repeat split; auto; lia. }
+    destruct (decode_head (b :: t)) as [[[m [n|]] r']|] eqn:E; try discriminate.
+    destruct (m =? 2); [|discriminate].
+    destruct (N.of_nat (length r') <? n) eqn:En; [discriminate|].
+    pose proof (decode_head_rest_ok _ _ _ _ Hbs E) as Hr'.
+    pose proof (decode_head_shorter _ _ _ _ E) as Hs.
+    destruct (IH _ _ _ _ (bytes_ok_skipn' _ _ Hr') (Forall_app_intro _ _ _ Hacc (bytes_ok_firstn (N.to_nat n) _ Hr')) H) as (A & B & C).
+    repeat split; auto. rewrite app_length, firstn_length, skipn_length in C. lia.
+  Qed.
+
+  Lemma rd_bytes_ok bs v r : bytes_ok bs -> rd_bytes bs = Ok (v, r) ->
+    bytes_ok v /\ bytes_ok r /\ (length v + length r <= length bs)%nat.
+  Proof.
+    intros Hok H. unfold rd_bytes in H.
+    destruct (decode_head bs) as [[[m [n|]] r']|] eqn:E; try discriminate.
+    - destruct (m =? 2); [|discriminate].
+      destruct (N.of_nat (length r') <? n) eqn:En; [destruct (two63 <=? n); discriminate|].
+      injection H as <- <-. pose proof (decode_head_rest_ok _ _ _ _ Hok E) as Hr'.
+      pose proof (decode_head_shorter _ _ _ _ E).
+      repeat split; [apply bytes_ok_firstn, Hr'|apply bytes_ok_skipn', Hr'|].
+      rewrite firstn_length, skipn_length. lia.
+    - destruct (m =? 2); [|discriminate].
+      pose proof (decode_head_rest_ok _ _ _ _ Hok E) as Hr'. pose proof (decode_head_shorter _ _ _ _ E).
+      destruct (rd_chunks_ok _ _ _ _ _ Hr' ltac:(constructor) H) as (A & B & C). cbn [length] in C.
+      repeat split; auto. lia.
+  Qed.
+
+  Definition dp_ok (L : nat) (dp : option bytes) : Prop :=
+    match dp with Some d => bytes_ok d /\ (length d <= L)%nat | None => True end.
+  Definition pm_ok (pm : option N) : Prop := match pm with Some m => m < two32 | None => True end.
+
+  Lemma attrs_loop_ok L fuel : forall n bs dp pm dp' pm' r, bytes_ok bs -> (length bs <= L)%nat ->
+    dp_ok L dp -> pm_ok pm -> attrs_loop fuel n bs dp pm = Ok (dp', pm', r) ->
+    dp_ok L dp' /\ pm_ok pm' /\ bytes_ok r.
+  Proof.
+    induction fuel as [|f IH]; intros n bs dp pm dp' pm' r Hbs HL Hdp Hpm H; cbn [attrs_loop] in H.
+    - destruct (n =? 0); [|discriminate]. inversion H; subst. auto.
+    - destruct (n =? 0); [inversion H; subst; auto|].
+      destruct (rd_arg 0 bs) as [[key r1]| | |] eqn:E1; cbn [bind] in H; try discriminate.
+      destruct (rd_arg_ok _ _ _ _ Hbs E1) as [Hr1 Hl1].
+      destruct (key =? 1).
+      + destruct (rd_bytes r1) as [[v r2]| | |] eqn:E2; cbn [bind] in H; try discriminate.
+        destruct (rd_bytes_ok _ _ _ Hr1 E2) as (Hv & Hr2 & Hl2).
+        refine (IH _ _ _ _ _ _ _ Hr2 _ _ Hpm H); [lia|cbn [dp_ok]; split; [exact Hv|lia]].
+      + destruct (key =? 2); [|discriminate].
+        destruct (rd_bytes r1) as [[v r2]| | |] eqn:E2; cbn [bind] in H; try discriminate.
+        destruct (rd_bytes_ok _ _ _ Hr1 E2) as (Hv & Hr2 & Hl2).
+        destruct (rd_arg 0 v) as [[magic r3]| | |] eqn:E3; cbn [bind] in H; try discriminate.
+        destruct (magic <? two32) eqn:Em; [|discriminate].
+        refine (IH _ _ _ _ _ _ _ Hr2 _ Hdp _ H); [lia|cbn [pm_ok]; lia].
+  Qed.
+
+  Lemma byron_decode_inner_wf inner a : bytes_ok inner -> byron_decode_inner inner = Ok a ->
+    length (b_addr a) = 28%nat /\ bytes_ok (b_addr a) /\ dp_ok (length inner) (b_dpath a) /\ pm_ok (b_magic a).
+  Proof.
+    intros Hok H. unfold byron_decode_inner in H.
+    destruct (rd_len 4 inner) as [[len i1]| | |] eqn:E; cbn [bind] in H; try discriminate.
+    destruct (rd_len_ok _ _ _ _ Hok E) as [Hi1 Hl1].
+    destruct len as [n|]; [|discriminate].
+    destruct n as [|p]; [discriminate|]. destruct p as [p|p|]; try discriminate.
+    destruct p as [p|p|]; try discriminate.
+    destruct (rd_bytes i1) as [[addr i2]| | |] eqn:E2; cbn [bind] in H; try discriminate.
+    destruct (rd_bytes_ok _ _ _ Hi1 E2) as (Haddr & Hi2 & Hl2).
+    destruct (length addr =? 28)%nat eqn:E28; [|discriminate]. apply Nat.eqb_eq in E28.
+    unfold rd_attrs in H.
+    destruct (rd_len 5 i2) as [[[n|] r]| | |] eqn:E3; cbn [bind] in H; try discriminate.
+    destruct (rd_len_ok _ _ _ _ Hi2 E3) as [Hr Hl3].
+    destruct (attrs_loop (S (length r)) n r None None) as [[[dp pm] i3]| | |] eqn:E4; cbn [bind] in H; try discriminate.
+    destruct (attrs_loop_ok (length inner) _ _ _ None None _ _ _ Hr ltac:(lia) I I E4) as (Hdp & Hpm & Hi3).
+    destruct (rd_arg 0 i3) as [[ty r']| | |]; cbn [bind] in H; try discriminate.
+    destruct (byron_type_of ty); [|discriminate]. injection H as <-. cbn. auto.
+  Qed.
+
+  (* every Byron address the parser returns satisfies wf_byron (inputs shorter than 2^62 bytes) *)
+  Theorem byron_from_bytes_wf data a : bytes_ok data -> N.of_nat (length data) < 4611686018427387904 ->
+    byron_from_bytes crc data = Ok a -> wf_byron a.
+  Proof.
+    intros Hok HL H. unfold byron_from_bytes, byron_decode_prefix in H.
+    destruct (rd_len 4 data) as [[len r1]| | |] eqn:E; cbn [bind] in H; try discriminate.
+    destruct (rd_len_ok _ _ _ _ Hok E) as [Hr1 Hl1].
+    destruct len as [n|]; [|discriminate].
+    destruct n as [|p]; [discriminate|]. destruct p as [p|p|]; try discriminate.
+    destruct p as [p|p|]; try discriminate.
+    destruct (rd_arg 6 r1) as [[tag r2]| | |] eqn:E1; cbn [bind] in H; try discriminate.
+    destruct (rd_arg_ok _ _ _ _ Hr1 E1) as [Hr2 Hl2].
+    destruct (tag =? 24); [|discriminate].
+    destruct (rd_bytes r2) as [[inner r3]| | |] eqn:E2; cbn [bind] in H; try discriminate.
+    destruct (rd_bytes_ok _ _ _ Hr2 E2) as (Hinner & Hr3 & Hl3).
+    destruct (rd_arg 0 r3) as [[c r4]| | |]; cbn [bind] in H; try discriminate.
+    destruct (c =? crc inner); [|discriminate].
+    destruct (byron_decode_inner inner) as [a'| | |] eqn:E3; cbn [bind] in H; try discriminate.
+    destruct r4; [|discriminate]. injection H as <-.
+    destruct (byron_decode_inner_wf inner a' Hinner E3) as (A & B & C & D).
+    unfold wf_byron. repeat split; auto.
+    - unfold dp_ok in C. destruct (b_dpath a'); [|exact I]. destruct C as [C1 C2]. split; [exact C1|lia].
+  Qed.
+End Parsed.
